@@ -321,6 +321,10 @@ def write_data(d):
     with open(os.path.join(d, "data2.txt"), "w") as f:
         for x, y in DATA2:
             f.write("%.4f %.4f 0.25\n" % (x, y))
+    # a data file with one missing measurement: every likelihood is inf, every description length NaN, the final table is empty
+    with open(os.path.join(d, "nan.txt"), "w") as f:
+        for k, (x, y) in enumerate(DATA1):
+            f.write(("%.4f nan 0.1\n" % x) if k == 3 else ("%.4f %.4f 0.1\n" % (x, y)))
 
 
 # ------------------------------------------------------------------ correspondence
@@ -699,6 +703,10 @@ def directed_corpus():
         # D4: generation at complexity 1 and a match stage of another basis before generation with three parameters
         (gen_call("core_maths", 5), [gen_call("osc_maths", 1), fit_call("r2", "core_maths", 3), gen_call("core_maths", 5)], None,
          [("core_maths", 3)]),
+        # D5: a run whose final table is EMPTY (all description lengths NaN) over the outputs of an earlier completed run of the same
+        #     analysis on good data: every stage output must be reset also on the fallback paths (touch does not truncate)
+        (fit_call("r1", "core_maths", 3, data="nan.txt"), [fit_call("r1", "core_maths", 3, data="data.txt")], None, []),
+        (fit_call("r1", "core_maths", 1, data="nan.txt"), [fit_call("r1", "core_maths", 1, data="data.txt")], None, []),
     ]
 
 
@@ -716,7 +724,8 @@ def search(ctx):
         ri = ctx.replay["input"]
         scen = [(ri["observed"], ri["history"], ri.get("pre_mpi"), [tuple(l) for l in ri.get("extra_libs", [])])]
     else:
-        scen = directed_corpus() if not ctx.quick else directed_corpus()[:2]
+        dc = directed_corpus()
+        scen = dc if not ctx.quick else dc[:2] + dc[4:]
         ndir = len(scen)
         for i in range(nhist):
             obs = observed_pool[i % len(observed_pool)] if i < len(observed_pool) else rng.choice(observed_pool)
